@@ -197,10 +197,11 @@ Verdict modelProp(Ctx& c) {
   p.recalc = c.coin();
   for (int i = 0, n = c.ipick(0, 3); i < n; ++i) p.calcPicks.push_back(c.ipick(0, 9));
   const uint64_t idSeed = static_cast<uint64_t>(c.pick(1, 1000000));
+  const bool lateStructure = c.ipick(0, 3) == 3;
 
   c.show << "bases:"; for (auto& b : p.bases) { c.show << (b.viaAdd ? " add{" : " set{"); for (auto& [k, t] : b.texts) c.show << k << ":" << t << ","; c.show << "}"; }
   c.show << " struct=" << p.structKind << " sdata=" << p.sdata.size() << " derived:"; for (size_t i = 0; i < p.derived.size(); ++i) c.show << " " << p.derivedKind[i] << ":" << p.derived[i];
-  c.show << (p.recalc ? " RecalculateAll" : "") << " calc:"; for (int x : p.calcPicks) c.show << " #" << x;
+  c.show << (lateStructure ? " late-structure" : "") << (p.recalc ? " RecalculateAll" : "") << " calc:"; for (int x : p.calcPicks) c.show << " #" << x;
   c.exec();
 
   ccl::tools::EntityGenerator::VerifSeed(idSeed);
@@ -245,6 +246,12 @@ Verdict modelProp(Ctx& c) {
     }
   }
   for (size_t i = 0; i < p.derived.size(); ++i) (void)m.Emplace(p.derivedKind[i] == 'D' ? CstType::term : CstType::axiom, p.derived[i]);
+  if (lateStructure) {  // a structure declared over a base set that is created only afterwards: it becomes typed by that insertion
+    const std::string late = "X" + std::to_string(p.bases.size() + 1);
+    (void)m.Emplace(CstType::structured, std::string(U8_BOOL "(") + late + ")");
+    (void)m.Emplace(CstType::base);
+    c.label("structure-declared-before-its-base-set");
+  }
   std::vector<EntityUID> l; for (auto u : m.List()) l.push_back(u);
   if (p.recalc) m.Calculations().RecalculateAll();
   for (int x : p.calcPicks) (void)m.Calculations().Calculate(l[static_cast<size_t>(x) % l.size()]);
